@@ -90,7 +90,7 @@ def readSymbols (r : RS) (pos e : Nat) (tok : Tok) (allowStrings : Bool) : G (Li
   let val ← sliceS r start p
   let start ← findNonSpace r e (e + 1) p
   let c := grabA r start e
-  let (ok, p2) ← (if start < e ∧ (allowStrings ∨ c = 0x22 ∨ c = 0x27) then do
+  let (ok, p2) ← (if start < e ∧ (c = 0x22 ∨ c = 0x27) then do
       let (ep, o) ← findStringEnd r start e
       pure (o, if o then ep else p)
     else pure (false, p) : G (Bool × Nat))
